@@ -27,6 +27,12 @@ func specDefaultKnown(t parser.ValueType) bool {
 	return false
 }
 
+//@ func (*transpiler).Transpile
+//@   flag modular: true
+//@   ensures[C14] fresh-parser-per-run: calls(New) == 1 && calls(Parse) == 1 && seq(New, 0) < seq(Parse, 0)
+//@   ensures[C13] script-or-error-never-both: err != nil && calls(Dump) == 0 ==> result0 == ""
+//@   ensures[C14] only-the-converter-is-kept: sameExcept(t, old(t), "converter")
+//
 //@ func BoolToString
 //@   ensures[C01,C05] one-zero: (b ==> result == "1") && (!b ==> result == "0")
 //
@@ -190,8 +196,9 @@ func specDefaultKnown(t parser.ValueType) bool {
 //@   ensures[C01,C04] condition-k-guards-branch-k: result == nil ==> arg(IfStart, 0, 0) == res(evaluateExpression, 0, 0).firstValue() && arg(evaluateBlock, 0, 1) == asBlockBranch(ifStatement.IfBranch()) && forall(k, 0, len(ifStatement.ElseIfBranches()), arg(ElseIfStart, k, 0) == res(evaluateExpression, k + 1, 0).firstValue() && arg(evaluateBlock, k + 1, 1) == asBlockBranch(ifStatement.ElseIfBranches()[k]))
 //
 //@ func (*transpiler).evaluateAppCall
-//@   loop 1 invariant[C18] no-converter-call-yet: calls(AppCall) == 0
-//@   loop 2 invariant[C18] no-converter-call-yet: calls(AppCall) == 0
+//@   loop 1 invariant[C18] no-converter-call-yet: calls(AppCall) == 0 && forall(k, 0, calls(evaluateExpression), arg(evaluateExpression, k, 2))
+//@   loop 2 invariant[C18] no-converter-call-yet: calls(AppCall) == 0 && forall(k, 0, calls(evaluateExpression), arg(evaluateExpression, k, 2))
+//@   ensures[C04,C18] every-argument-value-is-used: forall(k, 0, calls(evaluateExpression), arg(evaluateExpression, k, 2))
 //@   ensures[C18] one-converter-call: err == nil ==> calls(AppCall) == 1 && arg(AppCall, 0, 1) == valueUsed && len(result0.values) == len(res(AppCall, 0, 0))
 //
 //@ func (*transpiler).evaluateProgram
